@@ -14,8 +14,12 @@ several names of ONE container see what was stored through any of them.
 statement may raise (`done = false`), leaving the state reached so far.  A read of an unbound variable has no
 execution other than `raise` (Python: `UnboundLocalError`); the translator never emits one (it checks definite
 assignment of its own output and fails closed).
+`kill xs` ends the scope of the locals of an inlined callee: they are unbound again (so a read of one of them afterwards
+has, again, no execution but `raise`; the translator's definite-assignment check treats `kill` as unbinding), which
+lets the analysis forget them.
 `ana` is the abstract interpretation (abstract objects: parameters and allocation sites; one abstract heap);
-`report` / `reportRet` are what the check consumes.
+`report` / `reportRet` are what the check consumes.  `history c ms` (below) is the program of all call histories on one
+object; `retProg` what a constructed object retains.
 -/
 namespace Pew.Effects
 
